@@ -91,15 +91,22 @@ func (w *muxerMP4) writeFinalDTS(dts int64) {
 }
 
 func (w *muxerMP4) flush() error {
-	if w.curTrack == nil || len(w.curTrack.Samples) == 0 || w.curTrack.lastDTS < 0 {
-		return recordstore.ErrNoSegmentsFound
-	}
-
 	var tracks []*pmp4.Track
+	found := false
+
 	for _, track := range w.tracks {
 		if len(track.Samples) != 0 {
 			tracks = append(tracks, &track.Track)
+
+			// at least one track must contain samples inside the requested range
+			if track.lastDTS >= 0 {
+				found = true
+			}
 		}
+	}
+
+	if !found {
+		return recordstore.ErrNoSegmentsFound
 	}
 
 	h := pmp4.Presentation{
